@@ -84,7 +84,7 @@ class B(object):
     def readable(self, ctx):
         """A name to read: mostly pool names, sometimes functions/classes/builtins/never-bound."""
         k = self.draw(st.integers(0, 19))
-        bound = [n for n in ctx.get('bound', ()) if n in POOL or n[:1] in 'ij' or n[:2] == 'ex' or n == 'self' or n in ALL_STAR_NAMES]
+        bound = [n for n in ctx.get('bound', ()) if n in POOL or n[:1] in 'ijw' or n[:2] == 'ex' or n == 'self' or n in ALL_STAR_NAMES]
         if k < 16 and bound:
             return self.pick(bound)
         if k < 13:
@@ -153,6 +153,9 @@ class B(object):
             return self.comp_expr(ctx, depth, forbid)
         if k == 21:
             return '%s + %s' % (rd(), self.expr(ctx, depth + 1, forbid))
+        if k == 22:
+            self.features.add('call-keyword-before-star')
+            return 'use(kw=%s, *%s)' % (self.expr(ctx, depth + 1, forbid), rd())
         return rd()
 
     def _read(self, ctx, forbid):
@@ -237,11 +240,12 @@ class B(object):
             c = 'for %s in %s' % (tgt, it)
             if self.chance(35) and self.room():
                 self.dec()
-                wn = self.pick(POOL)
+                # a name that only this walrus binds (w1/w2) or a pool name (c01 only)
+                wn = self.pick(['w1', 'w2']) if self.profile != 'c01' or self.chance(60) else self.pick(POOL)
                 cond = self.expr(dict(inner, extra_reads=extra + vars_, bound=[b for b in ctx.get('bound', []) if b != wn]),
                                  depth + 1, tuple(forbid) + (wn,))
-                if (self.profile == 'c01' and self.chance(30) and not ctx.get('in_class_direct') and not ctx.get('no_walrus') and wn not in vars_
-                        and wn not in COMP_VARS and wn not in forbid and kind != 'gen'):
+                if (self.profile in ('c01', 'c02') and self.chance(35) and not ctx.get('in_class_direct') and not ctx.get('no_walrus') and wn not in vars_
+                        and wn not in COMP_VARS and wn not in forbid and not ctx.get('in_lambda')):
                     cond = '(%s := %s)' % (wn, cond)
                     self.features.add('walrus-in-comp')
                     walrus_names.append(wn)
@@ -249,13 +253,22 @@ class B(object):
                 self.features.add('comp-if')
             clauses.append(c)
         ictx = dict(inner, extra_reads=extra + vars_, bound=list(ctx.get('bound', [])) + vars_ + vars_)
-        if kind == 'set':
+        if (kind == 'gen' and self.profile in ('c01', 'c02') and self.chance(30) and not ctx.get('in_class_direct')
+                and not ctx.get('no_walrus') and not ctx.get('in_lambda')):
+            # any((m := f(x)) for x in xs): the canonical walrus-in-generator idiom
+            wn = self.pick(['w1', 'w2'])
+            elt = '(%s := %s)' % (wn, self._read(ictx, tuple(forbid) + (wn,)))
+            walrus_names.append(wn)
+            self.features.add('walrus-in-comp')
+        elif kind == 'set':
             elt = '(%s, %s)' % (self.pick(vars_), self._read(ictx, forbid))     # must stay hashable
         else:
             elt = self.expr(ictx, depth + 1, forbid)
             if self.chance(60):
                 elt = '(%s, %s)' % (self.pick(vars_), elt)
         self.comp_nest -= 1
+        if walrus_names:
+            self.bind(ctx, walrus_names * 3)
         if kind == 'dict':
             return '{%s: %s %s}' % (self.pick(vars_), elt, ' '.join(clauses))
         o, c = {'list': '[]', 'set': '{}', 'gen': '()'}[kind]
